@@ -124,6 +124,17 @@ func Execute(c Case, keepTrace bool) Result {
 				}
 			}
 		}
+		if c4, n := withOriginsAsPlain(c); n > 0 {
+			if o4, ok := exactRun(c4); ok {
+				res.Extra++
+				tr.Add("[origins-as-plain x%d] outcome %s", n, o4.Canon())
+				if base0 := res.Runs[0]; base0.Mode == store.ModeExact && o4.Canon() != base0.Outcome.Canon() {
+					res.Violation = &core.Violation{Property: "C10", Oracle: "requested-before-used", Class: "origin-request-has-a-side-effect", Predicate: Predicate(c),
+						Detail: fmt.Sprintf("replacing %d balance()/overdraft() variable(s) by plain variables holding the ledger's value changes the outcome: with the origins %s ; with plain variables %s", n, core.Truncate(base0.Outcome.Canon(), 400), core.Truncate(o4.Canon(), 400))}
+					return res
+				}
+			}
+		}
 		if c3, want := withProbes(c); len(want) > 0 {
 			if o3, ok := exactRun(c3); ok && o3.OK() {
 				res.Extra++
